@@ -7,7 +7,9 @@ typedef std::chrono::system_clock::time_point tp_t;
 static std::string S(const char* n) { std::string s(2, 'a'); verif_bytes(s.data(), 1, n); return s; }
 static std::optional<std::string> OS(const char* n) { return S(n); }
 // "sane" doubles for this harness: integer-valued, 0 .. 2^20 (extreme arguments are the subject of the C15 harness)
-static double D(const char* n) { return (double)verif_range_u32(0, 1u << 20, n); }
+// run parameter "xd" (C15, "whatever its arguments"): EVERY double bit pattern instead - NaN, infinities, subnormals, values beyond any integer range
+static double D(const char* n) { if (verif_param("xd")) return verif::f64(n); return (double)verif_range_u32(0, 1u << 20, n); }
+static double DX(const char* n, double sane) { if (verif_param("xd")) return verif::f64(n); return sane; }
 static hot_cue a_cue() { hot_cue c; c.label = S("cue.label"); c.sample_offset = D("cue.offset"); c.color = pad_color{verif_u8("r"), verif_u8("g"), verif_u8("b"), verif_u8("a")}; return c; }
 static loop a_loop() { loop l; l.label = S("loop.label"); l.start_sample_offset = D("loop.start"); l.end_sample_offset = D("loop.end"); l.color = pad_color{verif_u8("r"), verif_u8("g"), verif_u8("b"), verif_u8("a")}; return l; }
 static track_snapshot a_snapshot()
@@ -15,12 +17,12 @@ static track_snapshot a_snapshot()
     track_snapshot s;
     s.album = OS("album"); s.artist = OS("artist"); s.average_loudness = D("loudness");
     beatgrid_marker m0; m0.index = 0; m0.sample_offset = 0; beatgrid_marker m1; m1.index = 8; m1.sample_offset = 176400; s.beatgrid = {m0, m1};
-    s.bitrate = verif::i32("bitrate"); s.bpm = 120.0; s.comment = OS("comment"); s.composer = OS("composer");
+    s.bitrate = verif::i32("bitrate"); s.bpm = DX("bpm", 120.0); s.comment = OS("comment"); s.composer = OS("composer");
     s.duration = std::chrono::milliseconds{(int64_t)verif_range_u64(0, 1ull << 40, "duration_ms")}; s.file_bytes = verif_u64("file_bytes"); s.genre = OS("genre");
     s.hot_cues = {a_cue(), std::nullopt}; s.key = musical_key::a_minor;
     s.last_played_at = tp_t{std::chrono::seconds{(int64_t)verif_range_u64(0, 1ull << 32, "last_played")}};
     s.loops = {std::nullopt, a_loop()}; s.main_cue = D("main_cue"); s.publisher = OS("publisher"); s.rating = verif::i32("rating");
-    s.relative_path = std::string{"a/b.mp3"}; s.sample_count = verif_range_u64(1, 1ull << 40, "sample_count"); s.sample_rate = 44100.0;
+    s.relative_path = std::string{"a/b.mp3"}; s.sample_count = verif_range_u64(1, 1ull << 40, "sample_count"); s.sample_rate = DX("sample_rate", 44100.0);
     s.title = OS("title"); s.track_number = verif::i32("track_number"); s.year = verif::i32("year");
     waveform_entry w; w.low.value = verif_u8("w"); s.waveform = {w, w};
     return s;
@@ -60,7 +62,7 @@ static int run_op(djinterop::database& db, djinterop::track& t, djinterop::crate
             // ---- mutators
             case 100: t.set_album(OS("v")); break;                 case 101: t.set_artist(OS("v")); break;
             case 102: t.set_average_loudness(D("v")); break;
-            case 103: { beatgrid_marker m0; m0.index = 0; m0.sample_offset = 0; beatgrid_marker m1; m1.index = 4; m1.sample_offset = 88200; t.set_beatgrid({m0, m1}); break; }
+            case 103: { beatgrid_marker m0; m0.index = 0; m0.sample_offset = 0; beatgrid_marker m1; m1.index = 4; m1.sample_offset = DX("offset1", 88200); t.set_beatgrid({m0, m1}); break; }
             case 104: t.set_bitrate(verif::i32("v")); break;        case 105: t.set_bpm(D("v")); break;
             case 106: t.set_comment(OS("v")); break;                case 107: t.set_composer(OS("v")); break;
             case 108: t.set_duration(std::chrono::milliseconds{(int64_t)verif_range_u64(0, 1ull << 40, "v")}); break;
@@ -76,7 +78,7 @@ static int run_op(djinterop::database& db, djinterop::track& t, djinterop::crate
             case 116: t.set_main_cue(D("v")); break;       case 117: t.set_publisher(OS("v")); break;
             case 118: t.set_rating(verif::i32("v")); break;         case 119: t.set_relative_path(std::string{"x/y.flac"}); break;
             case 120: t.set_sample_count(verif_range_u64(1, 1ull << 40, "v")); break;
-            case 121: t.set_sample_rate(48000.0); break;            case 122: t.set_title(OS("v")); break;
+            case 121: t.set_sample_rate(DX("v", 48000.0)); break;            case 122: t.set_title(OS("v")); break;
             case 123: t.set_track_number(verif::i32("v")); break;
             case 124: { waveform_entry w; w.low.value = verif_u8("w"); t.set_waveform({w, w, w}); break; }
             case 125: t.set_year(verif::i32("v")); break;           case 126: t.update(a_snapshot()); break;
